@@ -553,6 +553,57 @@ def ctor_probe(chk):
     return cases, res, bad, (rc, err)
 
 
+def slow_backend_leg(delay=12.0):
+    """C18 when a request takes long (a slow embedding backend): whatever the server answers, an answer of the 4xx/5xx class
+    means the collection is unchanged — also a few seconds later — and a 2xx answer means the record is there"""
+    import threading
+    from http.server import BaseHTTPRequestHandler, ThreadingHTTPServer
+
+    class Stub(BaseHTTPRequestHandler):
+        def do_POST(self):
+            n = int(self.headers.get('Content-Length') or 0)
+            body = self.rfile.read(n)
+            try:
+                texts = json.loads(body).get('input') or ['x']
+            except ValueError:
+                texts = ['x']
+            time.sleep(delay)
+            out = json.dumps({'embeddings': [[0.25, 0.5] for _ in (texts if isinstance(texts, list) else [texts])]}).encode()
+            self.send_response(200)
+            self.send_header('Content-Type', 'application/json')
+            self.send_header('Content-Length', str(len(out)))
+            self.end_headers()
+            try:
+                self.wfile.write(out)
+            except OSError:
+                pass
+
+        def log_message(self, *a):
+            pass
+    stub = ThreadingHTTPServer(('127.0.0.1', 0), Stub)
+    threading.Thread(target=stub.serve_forever, daemon=True).start()
+    srv = Server(ollama='127.0.0.1:%d' % stub.server_address[1])
+    try:
+        if not srv.start():
+            return 'server does not start'
+        srv.request('POST', '/api/v1/collections', {'name': 'slow', 'distance_function': 'euclidean', 'vector_size': 2, 'quantization': 64})
+        srv.request('POST', '/api/v1/collections/slow/records', [{'id': 1, 'vector': [1.0, 2.0], 'metadata': {'k': 'v'}}])
+        before = srv.request('GET', '/api/v1/collections/slow/ids')
+        st, body = srv.request('POST', '/api/v1/collections/slow/records', [{'id': 77, 'text': 'a text that takes the backend %d seconds' % int(delay), 'metadata': {'k': 'w'}}], timeout=delay + 30)
+        time.sleep(4.0)
+        after = srv.request('GET', '/api/v1/collections/slow/ids')
+        if st == 'dropped':
+            return 'an insert that waits %.0f s for the embedding backend received no response: %s' % (delay, str(body)[:100])
+        if isinstance(st, int) and st >= 400 and after != before:
+            return 'an insert answered %s after waiting for a slow embedding backend changed the collection afterwards: ids %s -> %s' % (st, before[1], after[1])
+        if isinstance(st, int) and st < 300 and (not isinstance(after[1], list) or 77 not in after[1]):
+            return 'an insert answered %s but the record is not in the collection: ids %s' % (st, after[1])
+    finally:
+        srv.cleanup()
+        stub.shutdown()
+    return None
+
+
 def path_sweep():
     """C18, arbitrary paths and methods: every route of the API with one path segment deleted, doubled, emptied or a slash
     appended, under every method, for an existing and for an unknown collection; every request must get a complete
@@ -755,6 +806,13 @@ def check(prop, tier, seed, replay=None):
         stats['path_sweep_requests'] = nreq
         if why:
             chk.violation({'engine': 'rest', 'what': why, 'signature': 'rest:C18:path-sweep'})
+            nviol += 1
+    # ---- C18: a request that takes long
+    if prop == 'C18' and nviol == 0 and ok:
+        why = slow_backend_leg()
+        stats['slow_backend_leg'] = 1
+        if why:
+            chk.violation({'engine': 'rest', 'what': why, 'signature': 'rest:C18:slow-backend'})
             nviol += 1
     # ---- C18: embedded constructor
     if prop == 'C18' and nviol == 0:
